@@ -133,11 +133,11 @@ def cap_arg(case, rng):
     return [c, float(c), c + 0.6, c + 0.5, c + 0.75, np.int64(c), c + 0.25][int(rng.integers(7))]
 
 
-def replay_truncate(ctx, case, rng, is_eigh, use_stab, scale_pow=0, pad=False, order=None):
+def replay_truncate(ctx, case, rng, is_eigh, use_stab, scale_pow=0, pad=False, order=None, outer=None):
     d = case['d']
     Y, n = F.family_member(d, case['npre'], phys_ent(case))
     shifts = None
-    if use_stab and d >= 3 and rng.random() < 0.35:
+    if use_stab and d >= 3 and outer is None and rng.random() < 0.35:
         # stabilised rounding exists for tensors whose single cores are far from the ordinary range: leading cores
         # huge, one later core below core_stab's threshold (zero-sum exponents, same dense tensor)
         j = int(rng.integers(1, d))
@@ -148,18 +148,42 @@ def replay_truncate(ctx, case, rng, is_eigh, use_stab, scale_pow=0, pad=False, o
     Y, Qs = F.apply_symmetries(Y, n, rng, pad=pad, scale_pow=scale_pow, order=order, core_shifts=shifts)
     scale = 2.0 ** scale_pow
     N, T = phys(case['N'], case), case['T']
+    d_eff, u, c = d, None, 1.
+    if outer is not None:
+        # outer product with a vector c u (|u| = 1, c a power of two): one more mode behind a bond of rank one.  Every
+        # unfolding inside Y keeps its spectrum (times c), the new unfolding has rank one, so the specified outcome is
+        # the outcome of the case with the threshold e ||Y x cu|| / sqrt(d) and the result is Z x cu.
+        nv = int(rng.integers(2, 5))
+        u = rng.normal(size=nv)
+        u /= np.linalg.norm(u)
+        c = 2.0 ** int(rng.choice([0, 0, 12, -12, 40, -40]))
+        core = (c * u).reshape(1, nv, 1)
+        Y = (Y + [core]) if outer == 'right' else ([core] + Y)
+        d_eff = d + 1
     if N == 0:
         e = 0.5
     else:
-        e = float(np.sqrt((2 * T + 1) * (LAM if tiered(case) else 1.) * (d - 1) / (2.0 * N)))
+        e = float(np.sqrt((2 * T + 1) * (LAM if tiered(case) else 1.) * (d_eff - 1) / (2.0 * N)))
     cap = cap_arg(case, rng)
     Z = teneva.truncate(Y, e, cap, use_stab=use_stab, is_eigh=is_eigh)
-    what = 'truncate(e=%.4g, r=%s, is_eigh=%s, use_stab=%s, 2^%d%s)' % (e, cap, is_eigh, use_stab, scale_pow, '' if shifts is None else ', core exponents %s' % shifts)
-    if not F.is_wellformed(Z, n):
+    what = 'truncate(e=%.4g, r=%s, is_eigh=%s, use_stab=%s, 2^%d%s%s)' % (e, cap, is_eigh, use_stab, scale_pow, '' if shifts is None else ', core exponents %s' % shifts,
+                                                                       '' if outer is None else ', outer product with a vector of norm %g on the %s' % (c, outer))
+    n_eff = list(n) if outer is None else (list(n) + [len(u)] if outer == 'right' else [len(u)] + list(n))
+    if not F.is_wellformed(Z, n_eff):
         return what + ': result is not a well-formed finite TT-tensor of the input shape'
     rz = [int(G.shape[2]) for G in Z[:-1]]
     Fd, Zd = F.dense(Y), F.dense(Z)
     err2 = float(np.linalg.norm(Zd - Fd) ** 2)
+    if outer is not None:
+        rj = rz.pop(-1 if outer == 'right' else 0)
+        if rj != 1:
+            return what + ': the bond of rank one to the vector has rank %d in the result' % rj
+        ax = Zd.ndim - 1 if outer == 'right' else 0
+        Zin = np.tensordot(Zd, u, axes=([ax], [0])) / c
+        back = np.multiply.outer(Zin * c, u) if outer == 'right' else np.multiply.outer(u, Zin * c)
+        if np.abs(back - Zd).max() > 1e-9 * np.sqrt(max(N, 1.)) * scale * c:
+            return what + ': the result is not the outer product of a tensor with the vector (deviation %.3g)' % np.abs(back - Zd).max()
+        Zd, err2 = Zin, err2 / (c * c)
     return judge(case, rz, err2, Zd, n, Qs, scale, e * e * N * scale * scale, what)
 
 
